@@ -1,7 +1,9 @@
 (* Kemeny-Young (Model/Condorcet.v: permutations, kemeny_score, kemeny):
    - the enumeration lists exactly the permutations of the candidate list, each once;
-   - kemeny = the unique score-maximising permutation, refusal (CR_nie) exactly when there is none;
-   - a Condorcet winner heads every maximising permutation (moving it to the front gains votes). *)
+   - kemeny = the first n places on which ALL score-maximising permutations agree, refusal (CR_nie) exactly
+     when two of them differ within the first n places;
+   - a Condorcet winner heads every maximising permutation (moving it to the front gains votes), so it is
+     elected for one seat. *)
 From Coq Require Import ZArith List Bool Arith Lia Permutation.
 From VL Require Import Prelude.PyDict Model.GetNBest Model.Condorcet Proofs.Condorcet_proofs.
 Import ListNotations.
@@ -197,83 +199,138 @@ Proof.
     + apply IH; [exact Hn'|exact Hin|exact Ha|]. intros b Hb. apply Hu. right. exact Hb.
 Qed.
 
+Lemma clist_eqb_eq a b : clist_eqb a b = true <-> a = b.
+Proof.
+  revert b. induction a as [|x a IH]; intros [|y b]; simpl; try (split; [discriminate|congruence]); [tauto|].
+  rewrite andb_true_iff, IH. unfold ceqb. rewrite Pos.eqb_eq. split; [intros [-> ->]; reflexivity|intros [= -> ->]; tauto].
+Qed.
+
+Lemma forallb_false {X} (f : X -> bool) (l : list X) : forallb f l = false -> exists x, In x l /\ f x = false.
+Proof.
+  induction l as [|a t IH]; simpl; [discriminate|]. destruct (f a) eqn:E; simpl.
+  - intros H. destruct (IH H) as (x & Hx & Hf). exists x. tauto.
+  - intros _. exists a. tauto.
+Qed.
+
 Section KEM.
   Variable v : pvotes.
   Notation cs := (candidates v).
   Notation score := (kemeny_score v).
 
-  (* p is the strict maximiser of the Kemeny score over the rankings of all candidates *)
-  Definition kemeny_best (p : list C) : Prop :=
-    Permutation p cs /\
-    (forall q, Permutation q cs -> score q <= score p) /\
-    (forall q, Permutation q cs -> q <> p -> score q < score p).
+  (* p is a ranking of all candidates with the greatest Kemeny score *)
+  Definition kemeny_max (p : list C) : Prop :=
+    Permutation p cs /\ forall q, Permutation q cs -> score q <= score p.
 
-  Lemma kemeny_cases n : (exists p, kemeny v n = CR_ok (map Cand (firstn n p))) \/ kemeny v n = CR_nie.
+  Definition k_scored : list (list C * Z) := map (fun p => (p, score p)) (permutations cs).
+  Definition k_best : Z := fold_left (fun b ps => Z.max b (snd ps)) k_scored 0.
+  (* best_variants *)
+  Definition k_list : list (list C * Z) := filter (fun ps : list C * Z => snd ps =? k_best) k_scored.
+
+  Lemma kemeny_unfold n : kemeny v n =
+    match map (fun ps : list C * Z => firstn n (fst ps)) k_list with
+    | [] => CR_nie
+    | pre :: rest => if forallb (clist_eqb pre) rest then CR_ok (map Cand pre) else CR_nie
+    end.
+  Proof. reflexivity. Qed.
+
+  Lemma k_scored_in q : Permutation q cs -> In (q, score q) k_scored.
+  Proof. intros Hq. unfold k_scored. apply in_map_iff. exists q. split; [reflexivity|]. apply permutations_complete, Hq. Qed.
+
+  Lemma k_list_sound p s : In (p, s) k_list -> kemeny_max p /\ s = score p /\ 0 <= score p.
   Proof.
-    unfold kemeny. destruct (filter _ _) as [|[p s] [|x t]]; [right; reflexivity|left; exists p; reflexivity|right; reflexivity].
+    unfold k_list. intros H. apply filter_In in H. destruct H as [Hp Hs]. simpl in Hs. apply Z.eqb_eq in Hs.
+    destruct (fold_max_ge k_scored 0) as (B0 & Bge & _). fold k_best in B0, Bge.
+    unfold k_scored in Hp. apply in_map_iff in Hp. destruct Hp as (p' & Hpp & Hp). injection Hpp as -> Hsp.
+    split; [|split; [congruence|lia]]. split; [apply permutations_sound, Hp|].
+    intros q Hq. specialize (Bge _ (k_scored_in q Hq)). simpl in Bge. lia.
   Qed.
 
+  Lemma k_list_complete p : kemeny_max p -> 0 <= score p -> In (p, score p) k_list.
+  Proof.
+    intros [Hp Hge] H0. unfold k_list. apply filter_In. split; [apply k_scored_in, Hp|]. simpl. apply Z.eqb_eq.
+    destruct (fold_max_ge k_scored 0) as (B0 & Bge & Bex). fold k_best in B0, Bge, Bex.
+    pose proof (Bge _ (k_scored_in p Hp)) as Hle. simpl in Hle.
+    destruct Bex as [E|(ps & Hps & E)]; [lia|].
+    unfold k_scored in Hps. apply in_map_iff in Hps. destruct Hps as (q & <- & Hq). simpl in E.
+    specialize (Hge q (permutations_sound _ _ Hq)). lia.
+  Qed.
+
+  Lemma kemeny_max_score p q : kemeny_max p -> kemeny_max q -> score p = score q.
+  Proof. intros [Hp Gp] [Hq Gq]. specialize (Gp q Hq). specialize (Gq p Hp). lia. Qed.
+
+  (* defining computation: an answer is the first n places of a best ranking, and ALL best rankings agree on them *)
   Theorem kemeny_defining n r : kemeny v n = CR_ok r ->
-    exists p, kemeny_best p /\ 0 <= score p /\ r = map Cand (firstn n p).
+    exists p, kemeny_max p /\ 0 <= score p /\ r = map Cand (firstn n p) /\
+              forall q, kemeny_max q -> firstn n q = firstn n p.
   Proof.
-    unfold kemeny.
-    set (scored := map (fun p => (p, score p)) (permutations cs)).
-    set (best := fold_left (fun b ps => Z.max b (snd ps)) scored 0).
-    destruct (fold_max_ge scored 0) as (B0 & Bge & _). fold best in B0, Bge.
-    destruct (filter (fun ps : list C * Z => snd ps =? best) scored) as [|[p s] [|x t]] eqn:Ef; try discriminate.
-    intros [= <-]. exists p.
-    assert (Hp : In (p, s) (filter (fun ps : list C * Z => snd ps =? best) scored)) by (rewrite Ef; left; reflexivity).
-    apply filter_In in Hp. destruct Hp as [Hp Hs]. simpl in Hs. apply Z.eqb_eq in Hs.
-    unfold scored in Hp. apply in_map_iff in Hp. destruct Hp as (p' & Hpp & Hp). injection Hpp as -> Hsp.
-    assert (Hin : forall q, Permutation q cs -> In (q, score q) scored).
-    { intros q Hq. unfold scored. apply in_map_iff. exists q. split; [reflexivity|]. apply permutations_complete, Hq. }
-    split; [|split; [lia|reflexivity]].
-    split; [apply permutations_sound, Hp|]. split.
-    - intros q Hq. specialize (Bge _ (Hin q Hq)). simpl in Bge. lia.
-    - intros q Hq Hne. pose proof (Bge _ (Hin q Hq)) as Hle. simpl in Hle.
-      destruct (Z.eq_dec (score q) best) as [E|E]; [exfalso|lia].
-      assert (Hf : In (q, score q) (filter (fun ps : list C * Z => snd ps =? best) scored)).
-      { apply filter_In. split; [apply Hin, Hq|]. simpl. apply Z.eqb_eq, E. }
-      rewrite Ef in Hf. destruct Hf as [Hf|[]]. injection Hf as Hf _. exact (Hne (eq_sym Hf)).
+    rewrite kemeny_unfold. destruct k_list as [|[p s] t] eqn:Eb; cbn [map fst]; [discriminate|].
+    destruct (forallb _ _) eqn:Ef; [|discriminate]. intros [= <-].
+    assert (Hp : In (p, s) k_list) by (rewrite Eb; left; reflexivity).
+    apply k_list_sound in Hp. destruct Hp as (Hmax & _ & H0).
+    exists p. split; [exact Hmax|]. split; [exact H0|]. split; [reflexivity|].
+    intros q Hq. assert (Hin : In (q, score q) k_list).
+    { apply k_list_complete; [exact Hq|]. rewrite (kemeny_max_score q p Hq Hmax). exact H0. }
+    rewrite Eb in Hin. destruct Hin as [Hin|Hin]; [injection Hin as -> _; reflexivity|].
+    rewrite forallb_forall in Ef. symmetry. apply clist_eqb_eq. apply Ef.
+    apply in_map_iff. exists (q, score q). split; [reflexivity|exact Hin].
   Qed.
 
-  (* conversely the evaluator answers whenever a strict maximiser with a non-negative score exists
-     (the scan starts from best_score = 0); so CR_nie means: no unique best ranking *)
-  Theorem kemeny_complete n p : kemeny_best p -> 0 <= score p -> kemeny v n = CR_ok (map Cand (firstn n p)).
+  (* conversely the evaluator answers whenever the best rankings (non-negative score: the scan starts from
+     best_score = 0) agree on the first n places *)
+  Theorem kemeny_complete n p : kemeny_max p -> 0 <= score p ->
+    (forall q, kemeny_max q -> firstn n q = firstn n p) -> kemeny v n = CR_ok (map Cand (firstn n p)).
   Proof.
-    intros (Hp & Hge & Hgt) H0. unfold kemeny.
-    set (scored := map (fun p => (p, score p)) (permutations cs)).
-    set (best := fold_left (fun b ps => Z.max b (snd ps)) scored 0).
-    destruct (fold_max_ge scored 0) as (B0 & Bge & Bex). fold best in B0, Bge, Bex.
-    assert (Hin : In (p, score p) scored).
-    { unfold scored. apply in_map_iff. exists p. split; [reflexivity|]. apply permutations_complete, Hp. }
-    assert (Hbest : best = score p).
-    { pose proof (Bge _ Hin) as Hle. simpl in Hle. destruct Bex as [E|(ps & Hps & E)]; [lia|].
-      unfold scored in Hps. apply in_map_iff in Hps. destruct Hps as (q & <- & Hq). simpl in E.
-      specialize (Hge q (permutations_sound _ _ Hq)). lia. }
-    rewrite (filter_unique (fun ps : list C * Z => snd ps =? best) scored (p, score p)); [reflexivity| |exact Hin| |].
-    - unfold scored. apply FinFun.Injective_map_NoDup; [intros a b H; injection H as H _; exact H|].
-      apply permutations_NoDup, candidates_NoDup.
-    - simpl. apply Z.eqb_eq. symmetry. exact Hbest.
-    - intros [q s] Hq Hs. simpl in Hs. apply Z.eqb_eq in Hs. unfold scored in Hq. apply in_map_iff in Hq.
-      destruct Hq as (q' & Hqq & Hq). injection Hqq as -> <-.
-      destruct (list_eq_dec Pos.eq_dec q p) as [->|Hne]; [reflexivity|].
-      specialize (Hgt q (permutations_sound _ _ Hq) Hne). lia.
+    intros Hmax H0 Hall. rewrite kemeny_unfold. pose proof (k_list_complete p Hmax H0) as Hin.
+    assert (Hpre : forall q s, In (q, s) k_list -> firstn n q = firstn n p).
+    { intros q s Hq. apply Hall. apply (k_list_sound q s Hq). }
+    destruct k_list as [|[p0 s0] t]; [destruct Hin|]. cbn [map fst].
+    rewrite (Hpre p0 s0 (or_introl eq_refl)).
+    assert (Hf : forallb (clist_eqb (firstn n p)) (map (fun ps : list C * Z => firstn n (fst ps)) t) = true).
+    { apply forallb_forall. intros x Hx. apply in_map_iff in Hx. destruct Hx as ([q s] & <- & Hq). simpl.
+      apply clist_eqb_eq. symmetry. apply (Hpre q s). right. exact Hq. }
+    rewrite Hf. reflexivity.
   Qed.
 
+  Lemma kemeny_cases n : (exists p, kemeny_max p /\ kemeny v n = CR_ok (map Cand (firstn n p))) \/ kemeny v n = CR_nie.
+  Proof.
+    rewrite kemeny_unfold. destruct k_list as [|[p s] t] eqn:Eb; cbn [map fst]; [right; reflexivity|].
+    destruct (forallb _ _); [left|right; reflexivity]. exists p. split; [|reflexivity].
+    apply (k_list_sound p s). rewrite Eb. left. reflexivity.
+  Qed.
+
+  Lemma kemeny_max_exists : (forall q, 0 <= pget0 v q) -> exists p, kemeny_max p /\ 0 <= score p.
+  Proof.
+    intros Hnn. destruct (fold_max_ge k_scored 0) as (B0 & Bge & Bex). fold k_best in B0, Bge, Bex.
+    destruct Bex as [E|(ps & Hps & E)].
+    - exists cs. split; [|apply kemeny_score_nonneg, Hnn]. split; [apply Permutation_refl|].
+      intros q Hq. specialize (Bge _ (k_scored_in q Hq)). simpl in Bge.
+      pose proof (kemeny_score_nonneg v cs Hnn). lia.
+    - unfold k_scored in Hps. apply in_map_iff in Hps. destruct Hps as (p & <- & Hp). simpl in E.
+      exists p. split; [|apply kemeny_score_nonneg, Hnn]. split; [apply permutations_sound, Hp|].
+      intros q Hq. specialize (Bge _ (k_scored_in q Hq)). simpl in Bge. lia.
+  Qed.
+
+  (* the refusal: exactly when two best rankings differ within the first n places *)
   Theorem kemeny_refuses_iff n : (forall q, 0 <= pget0 v q) ->
-    (kemeny v n = CR_nie <-> ~ exists p, kemeny_best p).
+    (kemeny v n = CR_nie <-> exists p q, kemeny_max p /\ kemeny_max q /\ firstn n p <> firstn n q).
   Proof.
     intros Hnn. split.
-    - intros H (p & Hp). rewrite (kemeny_complete n p Hp) in H; [discriminate|]. apply kemeny_score_nonneg, Hnn.
-    - intros H. destruct (kemeny_cases n) as [(p & Hp)|E]; [|exact E].
-      exfalso. apply H. destruct (kemeny_defining n _ Hp) as (p' & Hb & _). exists p'. exact Hb.
+    - rewrite kemeny_unfold. destruct k_list as [|[p s] t] eqn:Eb; cbn [map fst].
+      + intros _. exfalso. destruct (kemeny_max_exists Hnn) as (p & Hp & H0).
+        pose proof (k_list_complete p Hp H0) as Hin. rewrite Eb in Hin. destruct Hin.
+      + destruct (forallb _ _) eqn:Ef; [discriminate|]. intros _.
+        apply forallb_false in Ef. destruct Ef as (x & Hx & Hf). apply in_map_iff in Hx. destruct Hx as ([q s'] & <- & Hq).
+        simpl in Hf. exists p, q. split; [apply (k_list_sound p s); rewrite Eb; left; reflexivity|].
+        split; [apply (k_list_sound q s'); rewrite Eb; right; exact Hq|].
+        intros E. apply clist_eqb_eq in E. congruence.
+    - intros (p & q & Hp & Hq & Hne). destruct (kemeny_cases n) as [(p0 & _ & H)|H]; [exfalso|exact H].
+      destruct (kemeny_defining n _ H) as (p1 & _ & _ & _ & Hall). apply Hne. rewrite (Hall p Hp), (Hall q Hq). reflexivity.
   Qed.
 
-  (* a Condorcet winner heads the best ranking *)
-  Lemma cw_heads_best c p : is_cw v c -> kemeny_best p -> exists t, p = c :: t.
+  (* a Condorcet winner heads every best ranking *)
+  Lemma cw_heads_max c p : is_cw v c -> kemeny_max p -> exists t, p = c :: t.
   Proof.
-    intros [Hc Hall] (Hp & _ & Hgt).
+    intros [Hc Hall] (Hp & Hge).
     assert (Hnd : NoDup p) by (apply (Permutation_NoDup (Permutation_sym Hp)), candidates_NoDup).
     assert (Hcp : In c p) by (apply (Permutation_in c (Permutation_sym Hp)), Hc).
     apply in_split in Hcp. destruct Hcp as (l1 & l2 & ->).
@@ -281,27 +338,25 @@ Section KEM.
     set (q := c :: (a :: l1) ++ l2).
     assert (Hq : Permutation q cs).
     { apply Permutation_trans with (2 := Hp). apply Permutation_cons_app. apply Permutation_refl. }
-    assert (Hne : q <> (a :: l1) ++ c :: l2).
-    { unfold q. simpl. intros E. injection E as E _. subst a. inversion Hnd as [|? ? Hx _]; subst.
-      apply Hx. apply in_or_app. right. left. reflexivity. }
-    specialize (Hgt q Hq Hne). unfold q in Hgt. rewrite score_move_front in Hgt.
+    specialize (Hge q Hq). unfold q in Hge. rewrite score_move_front in Hge.
     assert (0 < gain v c (a :: l1)); [|lia].
     apply gain_pos; [discriminate|]. intros x Hx. apply Hall.
     - apply (Permutation_in x Hp). apply in_or_app. left. exact Hx.
     - intros ->. apply NoDup_remove_2 in Hnd. apply Hnd. apply in_or_app. left. exact Hx.
   Qed.
 
-  Theorem kemeny_elects_cw c : is_cw v c -> kemeny v 1 = CR_ok [Cand c] \/ kemeny v 1 = CR_nie.
+  Theorem kemeny_elects_cw c : (forall q, 0 <= pget0 v q) -> is_cw v c -> kemeny v 1 = CR_ok [Cand c].
   Proof.
-    intros Hcw. destruct (kemeny_cases 1) as [(p & Hp)|E]; [left|right; exact E].
-    destruct (kemeny_defining 1 _ Hp) as (p' & Hb & _ & Hr). rewrite Hp. f_equal.
-    destruct (cw_heads_best c p' Hcw Hb) as (t & ->). rewrite Hr. reflexivity.
+    intros Hnn Hcw. destruct (kemeny_max_exists Hnn) as (p & Hp & H0).
+    destruct (cw_heads_max c p Hcw Hp) as (t & ->).
+    rewrite (kemeny_complete 1 (c :: t) Hp H0); [reflexivity|].
+    intros q Hq. destruct (cw_heads_max c q Hcw Hq) as (t' & ->). reflexivity.
   Qed.
 
   (* with as many seats as candidates the answer lists every candidate *)
   Theorem kemeny_nobody_dropped r x : kemeny v (length cs) = CR_ok r -> In x cs -> In (Cand x) r.
   Proof.
-    intros H Hx. destruct (kemeny_defining _ _ H) as (p & (Hp & _) & _ & ->).
+    intros H Hx. destruct (kemeny_defining _ _ H) as (p & (Hp & _) & _ & -> & _).
     rewrite <- (Permutation_length Hp), firstn_all. apply in_map. apply (Permutation_in x (Permutation_sym Hp)), Hx.
   Qed.
 End KEM.
